@@ -11,7 +11,7 @@ EXPLANATION = (
 ASSUMPTIONS = [
     "bounds: <= 3 concurrent requests, <= 6 tasks, <= 2 flushes, pool size in {1,2,3}",
 ]
-BUDGET = {"quick": 150, "thorough": 2400}
+BUDGET = {"quick": 150, "thorough": 900}
 MON = ["C02"]
 
 
